@@ -467,6 +467,38 @@ def _ahead(cls, attr, ctor):
         E.oblige("post:cursor", T(ctx.i) == i.t + 16)
 
 
+    @pyproof("py:bp.%s.decode_extensible_ahead/after-encode" % cls, BP, "%s.decode_extensible_ahead" % cls,
+             ["C02", "C05"], MOD, must=["post:result"], calls=["process_base_type"])
+    def _dec_after_enc(E, bp, vc):
+        """two-call history in one loaded module: a prefix was ENCODED (any 16-bit value, by either processor class) before this
+        decode - the accessor handed to process_base_type is still zero and the result is still exactly what the copy decodes (no
+        scratch state shared between calls)"""
+        out = E.fresh("decoded")
+        earlier = E.fresh("earlier")
+        E.assume(z3.And(earlier >= 0, earlier <= 65535))
+        bp.process_base_type = lambda *a: None
+        for other in (bp.Array(True, SymInt(earlier), None), bp.MessageProcessor(True, SymInt(earlier), [])):
+            other.encode_extensible_ahead(bp.ProcessContext(True, None, S(E, "i0")))
+
+        def pbt(n, c, di, acc):
+            E.oblige("pre-of-callee:process_base_type", z3.And(T(n) == 16, T(di.field_number) == 1, z3.BoolVal(di.aistack == []),
+                                                               z3.BoolVal(isinstance(acc, bp.IntAccessor)),
+                                                               T(acc.data) == 0), kind="pre-of-callee")
+            acc.data = acc.data | SymInt(out)          # the copy ORs the stream bits into the accessor
+            c.i = c.i + 16
+        bp.process_base_type = pbt
+        E.assume(z3.And(out >= 0, out <= 65535))
+        obj = ctor(bp, 7)
+        i = S(E, "i")
+        E.assume(z3.And(i.t >= 0, i.t < (1 << 52)))
+        ctx = bp.ProcessContext(False, None, i)
+        r = getattr(obj, "decode_extensible_ahead")(ctx)
+        E.oblige("post:result", T(r) == out)
+        # and a second decode right after it starts from zero again
+        r2 = getattr(obj, "decode_extensible_ahead")(ctx)
+        E.oblige("post:second-decode", T(r2) == out)
+
+
 _ahead("Array", "capacity", lambda bp, v: bp.Array(True, v, None))
 _ahead("MessageProcessor", "nbits", lambda bp, v: bp.MessageProcessor(True, v, []))
 
